@@ -4,7 +4,7 @@
    correspondence runs of harness/cmd/c16. *)
 From Coq Require Import List Arith Bool.
 Import ListNotations.
-From GU Require Import C16.Model C16.ProofsBase C16.ProofsA C16.ProofsS C16.ProofsF C16.ProofsL C16.ProofsI C16.ProofsJ C16.Proofs.
+From GU Require Import C16.Model C16.ProofsBase C16.ProofsA C16.ProofsS C16.ProofsF C16.ProofsL C16.ProofsI C16.ProofsJ C16.ProofsK C16.Proofs.
 
 (* Both cache kinds (p_kind), any number of clients and of stored versions (ops), EVERY schedule at backend micro-step
    granularity, with any fault (error / short write / crash / crash after a partial write) at any step of any client and
@@ -56,19 +56,19 @@ Proof. exact store_success_visible_mutable_l. Qed.
 Print Assumptions store_success_visible_mutable.
 
 (* store_success_visible, immutable cache.  For every entry state, client and EVERY sequence of faults under which a Store
-   of v (package name u) reports success: the complete package of v is in place under its final name; and IF it is the most
-   recent package in the listing by modification time (explicit hypothesis [newest]: modification times follow real time —
-   they are the back end's, not the library's), then for every sequence of later Fetch calls with arbitrary faults / crashes
-   every Fetch that reports success has installed v, and a fault-free Fetch does report success and installs v.
-   Not covered: CleanEntry calls in between (they remove only OLDER packages: harness only). *)
+   of v (package name u) reports success: the complete package of v is in place under its final name; and IF it is then the
+   most recent package in the listing by modification time and listed once (explicit hypothesis [newest1]: modification
+   times follow real time — they are the back end's, not the library's), then for EVERY sequence of later Fetch and
+   CleanEntry calls (fresh clients, arbitrary fault or crash at every micro-step) every Fetch that reports success has
+   installed v, and afterwards a fault-free Fetch does report success and installs v. *)
 Theorem store_success_visible_immutable : forall (P : params) (v : ver) (u c : nat) (fs : list fault) (R : remote)
-    (calls : list (nat * list fault)),
+    (calls : list call),
   p_kind P = Immutable -> p_rehash P = true ->
   let '(R1, L1) := run_faults P c fs R (new_client P (OStore v u)) in
   c_pc L1 = Done Ok ->
   content (Pkg u) R1 = Some (full P v) /\
-  (newest u R1 ->
-   let '(R2, Ls) := run_fetches P R1 calls in
+  (newest1 u R1 ->
+   let '(R2, Ls) := run_calls P R1 calls in
    (forall L, In L Ls -> fetch_ok L = true -> c_dest L = DInst v) /\
    (forall c', let L' := snd (run_faults P c' (repeat NoF 12) R2 (new_client P OFetch)) in
                c_pc L' = Done Ok /\ c_dest L' = DInst v)).
@@ -106,13 +106,13 @@ Proof.
 Qed.
 Print Assumptions fetch_timeout_destroys_foreign_lock_refuted_with_defer_first.
 
-(* non-vacuity of the hypothesis [newest]: after two fault-free Stores the second package is first in the listing *)
+(* non-vacuity of the hypothesis [newest1]: after two fault-free Stores the second package is first in the listing *)
 Example c16_newest_satisfiable :
   let P := P_of Immutable false true in
   let R1 := fst (run_faults P 0 (repeat NoF 30) remote0 (new_client P (OStore 0 0))) in
   let R2 := fst (run_faults P 1 (repeat NoF 30) R1 (new_client P (OStore 1 1))) in
-  newest 1 R2.
-Proof. vm_compute. eexists. eexists. reflexivity. Qed.
+  newest1 1 R2.
+Proof. vm_compute. eexists. eexists. split; [reflexivity|]. simpl. intuition discriminate. Qed.
 
 (* non-vacuity *)
 Example c16_nonvacuous :
